@@ -286,6 +286,55 @@ def library_stream_modes(chk, rng, n, stats):
         stats["library_mode_status0"] = stats.get("library_mode_status0", 0) + (1 if res.status == 0 else 0)
 
 
+def explicit_entries_stream(chk, rng, n, stats):
+    """Entries NAMED on the command line (files, and symbolic links to files, to files elsewhere, to nothing): the named entry
+    is what is renamed — a link as a link, its target stays where it is — inside the directory it is named in."""
+    import os
+    from cli_driver import run_cli, snapshot
+    from sandbox import Sandbox
+    base = [("out/keep.txt", "f", "keep"), ("in/a.txt", "f", "A"), ("in/b.dat", "f", "B"), ("in/sub/c.txt", "f", "C"),
+            ("in/l_sib", "l", "a.txt"), ("in/l_out", "l", "../out/keep.txt"), ("in/l_none", "l", "nowhere"), ("in/sub/l_up", "l", "../b.dat"),
+            ("in2/a.txt", "f", "A2"), ("in2/l_abs", "l", "ROOT/out/keep.txt")]
+    # (a dangling link cannot be named: the command line refuses a path that does not exist)
+    cands = ["in/a.txt", "in/b.dat", "in/sub/c.txt", "in/l_sib", "in/l_out", "in/sub/l_up", "in2/a.txt", "in2/l_abs"]
+    TPL = [("-n", "x%Name()", lambda p: os.path.join(os.path.dirname(p), "x" + os.path.basename(p))),
+           ("-n", "%Upper{%Name()}", lambda p: os.path.join(os.path.dirname(p), os.path.basename(p).upper())),
+           ("-p", "moved/%Name()", lambda p: os.path.join(os.path.dirname(p), "moved", os.path.basename(p))),
+           ("-p", "%Dir()/y%Name()", lambda p: os.path.join(os.path.dirname(p), "y" + os.path.basename(p)))]
+    for _ in range(n):
+        args = rng.sample(cands, rng.randrange(1, 5))
+        mode, tpl, fn = rng.choice(TPL)
+        spell = rng.choice(["rel", "abs", "dot"])
+        with Sandbox() as root:
+            pipe.materialise(root, base)
+            snap0, ids = pipe.id_map(root)
+            init = pipe.canon(snap0, ids, root)
+            spelled = [a if spell == "rel" else (os.path.join(root, a) if spell == "abs" else "./" + a) for a in args]
+            argv = [mode, "-cs", "--", tpl] + spelled
+            res = run_cli(argv, root, root=root, snapshots=False)
+            fin = pipe.canon(snapshot(root, with_times=False), ids, root)
+        exp = dict(init)
+        for a in args:
+            d = os.path.normpath(fn(a))
+            exp.pop(a, None)
+        for a in args:
+            d = os.path.normpath(fn(a))
+            exp[d] = init[a]
+            par = os.path.dirname(d)
+            while par and par not in exp:
+                exp[par] = ("d",)
+                par = os.path.dirname(par)
+        stats["explicit_entry_runs"] = stats.get("explicit_entry_runs", 0) + 1
+        chk.count(("explicit", tuple(args), mode, tpl, spell), nontrivial=True)
+        case = {"scenario": {"mode": "name" if mode == "-n" else "path", "strategy": "stop", "answers": [], "plan": [], "tree": base, "argv": argv[:4] + args},
+                "status": res.status, "report": res.report()[:6], "stderr": res.stderr[-300:]}
+        if res.status != 0:
+            chk.oracle_fail("explicitly named entries with free destinations (%r): exit status %s: %s" % (tpl, res.status, res.stderr.strip()[-160:]), case)
+        elif pipe.strip_hash(exp) != pipe.strip_hash(fin):
+            diff = sorted(p for p in set(exp) | set(fin) if pipe.strip_hash(exp).get(p) != pipe.strip_hash(fin).get(p))
+            chk.oracle_fail("explicitly named entries: status 0 but the tree is not what %r describes; differing paths: %r" % (tpl, diff[:6]), case)
+
+
 def run(chk):
     rng = chk.rng
     quick = chk.tier == "quick"
@@ -323,6 +372,7 @@ def run(chk):
     excluded = pipe.check_cases(chk, scns, obss)
     library_stream(chk, rng, 200 if quick else 8000, stats)
     library_stream_modes(chk, rng, 240 if quick else 8000, stats)
+    explicit_entries_stream(chk, rng, 80 if quick else 3000, stats)
     # whole-program model (Whole/Main.v: compile + gather + order + render + run) against the real command line, no plan injection
     import whole
     import random as _random
